@@ -8,7 +8,7 @@ from vf.ref import ber
 
 LEN_OPS = ["len-1", "len+1", "len+k", "len=0", "len=2^31", "len-127-octets", "len-indefinite", "len-nonminimal"]
 TAG_OPS = ["tag-class", "tag-number", "tag-pc", "tag-hightag-form"]
-CONTENT_OPS = ["content-truncate", "content-extend", "content-random", "content-empty"]
+CONTENT_OPS = ["content-truncate", "content-extend", "content-random", "content-empty", "int-giant"]
 NODE_OPS = ["node-delete", "node-duplicate", "node-swap", "node-wrap", "cut-in-child-length"]
 ALL_OPS = LEN_OPS + TAG_OPS + CONTENT_OPS + NODE_OPS
 
@@ -109,6 +109,13 @@ def apply(data: bytes, root: ber.Node, nodes: list, k: int, op: str, r: random.R
         if L == 0:
             return None
         new = ident + b"\x00"
+    elif op == "int-giant":
+        # an INTEGER / ENUMERATED / BOOLEAN of thousands of content octets (more decimal digits than CPython converts
+        # between int and str by default): still one well-formed element
+        if node_type(n) not in ("INTEGER", "ENUMERATED", "BOOLEAN"):
+            return None
+        big = bytes([r.choice([1, 0x7F, 0x80, 0xFF, 0x55])]) + r.randbytes(r.choice([1790, 2100, 4200]))
+        new = ident + ber.length_octets(len(big)) + big
     elif op == "node-delete":
         if parent is None:
             return None
